@@ -8,7 +8,8 @@
 (* never on what the design layer predicts.  Each clause quotes the        *)
 (* sentence of the statement it restates.                                  *)
 (***************************************************************************)
-EXTENDS Integers, Sequences, FiniteSets, TLC, Json
+EXTENDS Integers, Sequences, FiniteSets, TLC, Json, BigWord
+ASSUME BigWordLoaded
 
 TraceLog == ndJsonDeserialize("trace.ndjson")
 
@@ -24,12 +25,17 @@ NSenders == 2
 BaseGas(to) == CASE to = "create" -> 53000 [] to = "staking" -> 100000 [] OTHER -> 21000
 Intrinsic(t) == BaseGas(t.to) + 16 * t.nz + 4 * t.z
 
+\* "ApplyBig" events (big-number stage): price, value, balances and gas rewards are decimal strings (tx.priceS, tx.valueS,
+\* pre.bal, post.bal, hdr[3..4]), judged with exact arithmetic (BigWord override); everything else is as in "Apply" events
+IsApply(e) == e.ev \in {"Apply", "ApplyBig"}
+IsBig(e) == e.ev = "ApplyBig"
+CostS(e) == BigMul(BigOfInt(e.tx.limit), e.tx.priceS)
 Applied(e) == e.err = "" /\ e.rc.status >= 0
 PreN(e) == e.pre.nonce[e.tx.s]
 PreB(e) == e.pre.bal[e.tx.s]
 Cost(e) == e.tx.limit * e.tx.price
 WrongNonce(e) == e.tx.nonce # PreN(e)
-CannotPay(e) == PreB(e) < Cost(e)
+CannotPay(e) == IF IsBig(e) THEN ~BigLeq(CostS(e), PreB(e)) ELSE PreB(e) < Cost(e)
 Exhausted(e) == e.pool[1] < e.tx.limit
 UpFront(e) == WrongNonce(e) \/ CannotPay(e) \/ Exhausted(e)
 \* value the transaction moves out of the sender: what it names, when it succeeded (a failed call/creation/staking
@@ -51,10 +57,10 @@ Reasons(e) == (IF WrongNonce(e) THEN {"nonce"} ELSE {}) \cup (IF CannotPay(e) TH
 
 \* ---- clause antecedents (for the vacuity counters) and verdicts
 Ante(c, e) ==
-   CASE c = "RefusedChangesNothing" -> e.ev = "Apply" /\ UpFront(e)
-     [] c = "RevertedUnchanged"     -> e.ev = "Apply" /\ ~Applied(e) /\ e.mode = "miner"
+   CASE c = "RefusedChangesNothing" -> IsApply(e) /\ UpFront(e)
+     [] c = "RevertedUnchanged"     -> IsApply(e) /\ ~Applied(e) /\ e.mode = "miner"
      [] c = "SenderAuthentic"       -> e.ev \in {"Sender", "Resolve", "SenderV"}
-     [] OTHER                       -> e.ev = "Apply" /\ Applied(e)
+     [] OTHER                       -> IsApply(e) /\ Applied(e)
 
 Holds(c, e) ==
    CASE c = "RefusedChangesNothing" ->
@@ -62,14 +68,17 @@ Holds(c, e) ==
           ~Applied(e) /\ e.post = e.pre /\ e.pool[2] = e.pool[1] /\ e.hdr[2] = e.hdr[1] /\ e.hdr[4] = e.hdr[3]
      [] c = "AppliedRequires" ->
           \* "An applied transaction requires the account's next nonce and sufficient funds"
-          ~WrongNonce(e) /\ PreB(e) >= Cost(e) + (IF e.tx.to = "staking" THEN 0 ELSE e.tx.value)
+          ~WrongNonce(e) /\ (IF IsBig(e) THEN BigLeq(BigAdd(CostS(e), e.tx.valueS), PreB(e))
+                              ELSE PreB(e) >= Cost(e) + (IF e.tx.to = "staking" THEN 0 ELSE e.tx.value))
      [] c = "NonceExactlyNext" ->
           \* "raises the nonce by one"
           /\ e.post.nonce[e.tx.s] = PreN(e) + 1
           /\ \A o \in 1..NSenders : o # e.tx.s => e.post.nonce[o] = e.pre.nonce[o]
      [] c = "ChargedExactly" ->
           \* "changes the sender's balance by exactly the value it transfers or stakes plus gas used times price"
-          Paid(e) = Expected(e)
+          IF IsBig(e) THEN BigSub(PreB(e), e.post.bal[e.tx.s])
+                           = BigAdd(IF e.rc.status = 1 THEN e.tx.valueS ELSE "0", BigMul(BigOfInt(e.rc.gas), e.tx.priceS))
+          ELSE Paid(e) = Expected(e)
      [] c = "GasWithinBounds" ->
           \* "with gas used between the intrinsic cost and the limit"
           Intrinsic(e.tx) <= e.rc.gas /\ e.rc.gas <= e.tx.limit
@@ -95,7 +104,8 @@ Holds(c, e) ==
                /\ e.res = e.fresh
 
 Disc(c, e) ==
-   CASE c = "RefusedChangesNothing" -> Reasons(e)
+   CASE IsApply(e) /\ IsBig(e) -> {"big", e.cls.price, e.cls.lim, e.cls.afford, e.cls.val, e.mode}
+     [] c = "RefusedChangesNothing" -> Reasons(e)
      [] c = "ChargedExactly" -> IF RefundShape(e, Expected(e) - Paid(e), e.tx.price) THEN {"gas_refund", e.vtag}
                                 ELSE IF LegacyShape(e, Paid(e) \div e.tx.price) /\ Paid(e) % e.tx.price = 0 THEN {"staking_failed_gas", e.vtag}
                                 ELSE InputClass(e)
@@ -116,7 +126,7 @@ Step ==
    /\ l <= Len(TraceLog)
    /\ l' = l + 1
    /\ LET e == TraceLog[l] IN
-      IF e.ev \in {"Apply", "Sender", "Resolve", "SenderV"} /\ "panic" \notin DOMAIN e
+      IF e.ev \in {"Apply", "ApplyBig", "Sender", "Resolve", "SenderV"} /\ "panic" \notin DOMAIN e
       THEN LET A == { c \in Clauses : Ante(c, e) } IN
            /\ fired' = [c \in Clauses |-> IF c \in A THEN fired[c] + 1 ELSE fired[c]]
            /\ viol' = viol \cup { <<c, Disc(c, e), l>> : c \in { k \in A : ~Holds(k, e) } }
